@@ -185,6 +185,40 @@ class TRec(T):
         return VRec({fn: ft.wrap(self.acc(fn, e)) for fn, ft in self.fields.items()}, self)
 
 
+class TMutRec(T):
+    """mutable dict-shaped record with a fixed set of string keys, stored *by value* inside containers
+    (z3 datatype).  Exec-mode representation: a VDictRec whose `.mt` is this type; when it is read out of a
+    map / list / another record it carries an `origin` and every mutation is written back (path alias;
+    precondition: records are not shared between containers, at most one live alias per stored record)."""
+
+    def __init__(self, nm, fields):
+        self.nm = nm
+        self.fields = dict(fields)
+        self.name = "MRec_" + nm
+        key = self.name
+        if key not in _DT_CACHE:
+            d = z3.Datatype("MRec_" + _safe(nm))
+            d.declare("mk", *[("mr_%s_%s" % (_safe(nm), _safe(fn)), ft.sort()) for fn, ft in self.fields.items()])
+            _DT_CACHE[key] = d.create()
+        self.dt = _DT_CACHE[key]
+
+    def sort(self):
+        return self.dt
+
+    def acc(self, fname, e):
+        return getattr(self.dt, "mr_%s_%s" % (_safe(self.nm), _safe(fname)))(e)
+
+    def wrap(self, e):
+        d = VDictRec({})
+        d.mt = self
+        for fn, ft in self.fields.items():
+            v = ft.wrap(self.acc(fn, e))
+            if isinstance(v, (VSeq, VMap, VSet, VDictRec)):
+                v.origin = (d, fn)
+            d.fields[fn] = v
+        return d
+
+
 class TList(T):
     def __init__(self, elem, kind="list"):
         self.elem = elem
@@ -380,7 +414,7 @@ class VSeq(V):
 
     def get(self, i):
         v = self.et.wrap(z3.Select(self.arr, i))
-        if isinstance(v, (VSeq, VMap, VSet)):
+        if isinstance(v, (VSeq, VMap, VSet, VDictRec)):
             v.origin = (self, i)
         return v
 
@@ -401,7 +435,7 @@ class VMap(V):
 
     def get(self, k):
         v = self.vt.wrap(z3.Select(self.val, k))
-        if isinstance(v, (VSeq, VMap, VSet)):
+        if isinstance(v, (VSeq, VMap, VSet, VDictRec)):
             v.origin = (self, k)
         return v
 
@@ -437,6 +471,23 @@ class VDictRec(V):
         self.fields = dict(fields)
 
     t = None
+    mt = None   # TMutRec when this dict is (an alias of) a by-value record stored in a container
+
+    def store_back(self, key, child):
+        self.fields[key] = child
+        self.writeback()
+
+    def adopt(self, mt):
+        """this literal dict has just been stored in a container of records of type mt: from now on it is the
+        alias of the stored record (python reference semantics of `m[k] = rec; rec[f] = ...`)"""
+        self.mt = mt
+        for fn, ft in mt.fields.items():
+            ch = self.fields.get(fn)
+            if isinstance(ch, VDictRec) and isinstance(ft, TMutRec):
+                ch.origin = (self, fn)
+                ch.adopt(ft)
+            elif isinstance(ch, (VSeq, VMap, VSet)):
+                ch.origin = (self, fn)
 
 
 class VFunc(V):
@@ -501,6 +552,8 @@ def typeof(v):
         return v.t
     if isinstance(v, (VUn, VOpt, VRec, VTuple, VSeq, VMap, VSet, VPath)):
         return v.t
+    if isinstance(v, VDictRec) and v.mt is not None:
+        return v.mt
     raise TypeError("value of %s has no encodable type" % type(v).__name__)
 
 
@@ -563,6 +616,27 @@ def unwrap(v, t):
         if v.t.nm != t.nm:
             raise TypeError("record mismatch %s vs %s" % (v.t, t))
         return t.dt.mk(*[unwrap(v.fields[fn], ft) for fn, ft in t.fields.items()])
+    if isinstance(t, TMutRec) and isinstance(v, VDictRec):
+        if set(v.fields) != set(t.fields):
+            raise TypeError("dict with keys %s is not a %s record" % (sorted(v.fields), t.nm))
+        es = [unwrap(v.fields[fn], ft) for fn, ft in t.fields.items()]
+        # eta-reduction: mk(acc_1(x), ..., acc_n(x)) is x (an unmodified record read out of a container)
+        x = None
+        for i, e in enumerate(es):
+            if not (z3.is_app(e) and e.num_args() == 1 and e.decl().eq(t.dt.accessor(0, i))):
+                x = None
+                break
+            if x is None:
+                x = e.arg(0)
+            elif not x.eq(e.arg(0)):
+                x = None
+                break
+        if x is not None and x.sort().eq(t.dt):
+            return x
+        return t.dt.mk(*es)
+    if isinstance(t, TMap) and isinstance(v, VDictRec) and not v.fields and not t.ordered:
+        dflt = z3.Const("dflt_" + "".join(c if c.isalnum() else "_" for c in t.v.name), t.v.sort())
+        return t.dt.mk(z3.K(t.k.sort(), z3.BoolVal(False)), z3.K(t.k.sort(), dflt), z3.IntVal(0))
     if isinstance(t, TList) and type(v).__name__ == "VEmptyList":
         dflt = z3.Const("dflt_" + "".join(c if c.isalnum() else "_" for c in t.elem.name), t.elem.sort())
         return t.dt.mk(z3.K(z3.IntSort(), dflt), z3.IntVal(0))
@@ -583,13 +657,29 @@ def unwrap(v, t):
             return x
         return t.dt.mk(v.dom, v.val, v.card)
     if isinstance(t, TSet) and isinstance(v, VSet):
-        return t.dt.mk(v.dom, v.card)
+        return _eta2(t.dt, [v.dom, v.card])
     raise TypeError("cannot encode %s as %s" % (type(v).__name__, t))
 
 
 def future_type(rt):
     """concurrent.futures.Future as a value: the outcome of the submitted call (see externals._tpe_submit)"""
     return TRec("Future_" + _safe(rt.name), {"raised": TBool, "value": rt, "exc_type": TStr, "exc_msg": TStr})
+
+
+def _eta2(dt, es):
+    """mk(acc_0(x), ..., acc_n(x)) is x: an unmodified container value read out of another container keeps its
+    original term (equalities between stored values stay syntactic)"""
+    x = None
+    for i, e in enumerate(es):
+        if not (z3.is_app(e) and e.num_args() == 1 and e.decl().eq(dt.accessor(0, i))):
+            return dt.mk(*es)
+        if x is None:
+            x = e.arg(0)
+        elif not x.eq(e.arg(0)):
+            return dt.mk(*es)
+    if x is not None and x.sort().eq(dt):
+        return x
+    return dt.mk(*es)
 
 
 # ---------------------------------------------------------------- type parsing
